@@ -12,6 +12,8 @@ import (
 	"sort"
 	"strconv"
 	"strings"
+	"sync/atomic"
+	"time"
 
 	enc "github.com/named-data/ndnd/std/encoding"
 )
@@ -132,3 +134,42 @@ func readNdjson(path string, each func(line []byte)) {
 var _ = fmt.Sprint
 
 func newBuf(f *os.File) *bufio.Writer { return bufio.NewWriterSize(f, 1<<16) }
+
+// hangWatch is a real-time watchdog for drivers whose property promises completion: it runs outside any synctest
+// bubble, and when the driver's progress counter has not moved for `limit` it records where the driver was
+// (hang.json in $VERIF_OUT) and leaves with status 7. A spinning goroutine of the code under test inside a bubble
+// never lets synctest.Wait return, so this is the only way such a livelock becomes an observation.
+type hangWatch struct {
+	n    atomic.Int64
+	at   atomic.Value
+	stop chan struct{}
+}
+
+func startHangWatch(driver string, limit time.Duration) *hangWatch {
+	h := &hangWatch{stop: make(chan struct{})}
+	os.Remove(filepath.Join(outDir(), "hang.json"))
+	go func() {
+		last, since := int64(-1), time.Now()
+		for {
+			select {
+			case <-h.stop:
+				return
+			case <-time.After(500 * time.Millisecond):
+			}
+			if n := h.n.Load(); n != last {
+				last, since = n, time.Now()
+			} else if time.Since(since) > limit {
+				writeMeta("hang.json", map[string]any{"driver": driver, "seconds": int(limit.Seconds()), "at": h.at.Load(), "progress": n})
+				os.Exit(7)
+			}
+		}
+	}()
+	return h
+}
+
+func (h *hangWatch) tick(at any) {
+	if at != nil {
+		h.at.Store(at)
+	}
+	h.n.Add(1)
+}
